@@ -724,6 +724,86 @@ def extract_transit():
     return "\n".join(L) + "\n"
 
 
+# ---------------------------------------------------------------------------
+# C02: the shape of the per-message key derivation (ast)
+
+def _c02_leaf(node, env):
+    """one operand of the `purpose = a + b + c` concatenation -> Lean `Part`"""
+    if isinstance(node, ast.Constant) and isinstance(node.value, bytes):
+        return ".const " + lean_bytes(node.value)
+    # sha256(X).digest()
+    if (isinstance(node, ast.Call) and isinstance(node.func, ast.Attribute) and node.func.attr == "digest"
+            and isinstance(node.func.value, ast.Call) and _call_name(node.func.value) == "sha256"
+            and len(node.func.value.args) == 1 and isinstance(node.func.value.args[0], ast.Name)):
+        v = node.func.value.args[0].id
+        if v in env:
+            return ".sha256 " + lean_str(env[v][0]) + " " + lean_str(env[v][1])
+        return ".sha256 " + lean_str(v) + ' "-"'
+    if isinstance(node, ast.Name):
+        if node.id in env:
+            return ".raw " + lean_str(env[node.id][0]) + " " + lean_str(env[node.id][1])
+        return ".raw " + lean_str(node.id) + ' "-"'
+    return ".other " + lean_str(ast.unparse(node))
+
+
+def _c02_flatten(node):
+    if isinstance(node, ast.BinOp) and isinstance(node.op, ast.Add):
+        return _c02_flatten(node.left) + _c02_flatten(node.right)
+    return [node]
+
+
+def _c02_call_args(func, callee):
+    """source text of the positional arguments of every call of `callee` in `func`, in order"""
+    func = getattr(func, "method", func)      # automat wraps @m.output methods
+    tree = ast.parse(textwrap.dedent(inspect.getsource(func)))
+    out = []
+    for node in ast.walk(tree):
+        if isinstance(node, ast.Call) and _call_name(node) == callee:
+            out.append([ast.unparse(a) for a in node.args] + [k.arg + "=" + ast.unparse(k.value) for k in node.keywords])
+    return out
+
+
+def extract_c02():
+    from wormhole import _key, _receive, _send
+    tree = ast.parse(textwrap.dedent(inspect.getsource(_key.derive_phase_key)))
+    fn = tree.body[0]
+    params = [a.arg for a in fn.args.args]
+    env = {}        # local name -> (parameter, encoding)
+    purpose = None
+    ret = None
+    for st in fn.body:
+        if isinstance(st, ast.Assign) and len(st.targets) == 1 and isinstance(st.targets[0], ast.Name):
+            t = st.targets[0].id
+            v = st.value
+            if (isinstance(v, ast.Call) and isinstance(v.func, ast.Attribute) and v.func.attr == "encode"
+                    and isinstance(v.func.value, ast.Name) and v.func.value.id in params):
+                enc = v.args[0].value if v.args and isinstance(v.args[0], ast.Constant) else "?"
+                env[t] = (v.func.value.id, str(enc))
+            elif t == "purpose":
+                purpose = [_c02_leaf(n, env) for n in _c02_flatten(v)]
+        elif isinstance(st, ast.Return):
+            ret = ast.unparse(st.value)
+    L = ["namespace WV.Gen.C02",
+         "/-- one operand of the `purpose` concatenation in `derive_phase_key`: a literal, `sha256(param.encode(enc)).digest()`,",
+         "    a parameter used raw, or anything the translator does not recognise -/",
+         "inductive Part where",
+         "  | const (b : List Nat)",
+         "  | sha256 (param enc : String)",
+         "  | raw (param enc : String)",
+         "  | other (src : String)",
+         "  deriving DecidableEq, Repr",
+         "def phaseKeyParams : List String := [" + ", ".join(lean_str(p) for p in params) + "]",
+         "def phasePurpose : List Part := [" + ", ".join(purpose or ['.other "purpose-not-found"']) + "]",
+         "def phaseKeyReturn : String := " + lean_str(ret or ""),
+         "/-- arguments of the `derive_phase_key(...)` calls in Receive.got_message, _SortedKey.compute_key, Send._encrypt_and_send -/",
+         "def receiveKeyArgs : List (List String) := [" + ", ".join("[" + ", ".join(lean_str(a) for a in c) + "]" for c in _c02_call_args(_receive.Receive.got_message, "derive_phase_key")) + "]",
+         "def computeKeyArgs : List (List String) := [" + ", ".join("[" + ", ".join(lean_str(a) for a in c) + "]" for c in _c02_call_args(vars(_key._SortedKey)["compute_key"], "derive_phase_key")) + "]",
+         "def sendKeyArgs : List (List String) := [" + ", ".join("[" + ", ".join(lean_str(a) for a in c) + "]" for c in _c02_call_args(_send.Send._encrypt_and_send, "derive_phase_key")) + "]",
+         "def receiveDecryptArgs : List (List String) := [" + ", ".join("[" + ", ".join(lean_str(a) for a in c) + "]" for c in _c02_call_args(_receive.Receive.got_message, "decrypt_data")) + "]",
+         "end WV.Gen.C02"]
+    return "\n".join(L) + "\n"
+
+
 def main():
     changed = []
     machines = [dump_machine(*m) for m in MACHINES]
@@ -754,6 +834,8 @@ def main():
         changed.append("C06")
     if write_if_changed(os.path.join(GEN, "Transit.lean"), hdr + extract_transit()):
         changed.append("Transit")
+    if write_if_changed(os.path.join(GEN, "C02.lean"), hdr + extract_c02()):
+        changed.append("C02")
     summary = {
         "machines": len(machines),
         "transitions": sum(len(m["rows"]) for m in machines),
